@@ -86,6 +86,9 @@ class F121(protocol_base.IrProtocolBase):
 
         new_code = []
 
+        if len(data) % 2:
+            raise DecodeError
+
         for i in range(0, len(data), 2):
             mark = data[i]
             space = data[i + 1]
